@@ -2,6 +2,7 @@ package sim
 
 import (
 	"encoding/json"
+	"fmt"
 
 	wasmvmtypes "github.com/CosmWasm/wasmvm/types"
 	sdk "github.com/cosmos/cosmos-sdk/types"
@@ -34,6 +35,18 @@ func (c *Chain) GovFrom(ctx sdk.Context, sender sdk.AccAddress, m bindings.Comde
 	if err != nil {
 		return err
 	}
-	_, _, err = c.Messenger().DispatchMsg(ctx, sender, "", wasmvmtypes.CosmosMsg{Custom: bz})
+	// like the transaction of the contract that emits the message: all-or-nothing, a panic fails it
+	cctx, write := ctx.CacheContext()
+	func() {
+		defer func() {
+			if p := recover(); p != nil {
+				err = fmt.Errorf("contract message panicked: %v", p)
+			}
+		}()
+		_, _, err = c.Messenger().DispatchMsg(cctx, sender, "", wasmvmtypes.CosmosMsg{Custom: bz})
+	}()
+	if err == nil {
+		write()
+	}
 	return err
 }
